@@ -14,7 +14,12 @@ use crate::token::ui_token::{UiTokenType};
 pub fn percent_regex_parser(config: &SmartCalcConfig, tokinizer: &mut Tokinizer, group_item: &[Regex]) {
     for re in group_item.iter() {
         for capture in re.captures_iter(&tokinizer.data.to_owned()) {
-            if tokinizer.add_token_from_match(&capture.get(0), Some(TokenType::Percent(capture.name("NUMBER").unwrap().as_str().replace(&config.thousand_separator[..], "").replace(&config.decimal_seperator[..], ".").parse::<f64>().unwrap()))) {
+            let number = match capture.name("NUMBER").unwrap().as_str().replace(&config.thousand_separator[..], "").replace(&config.decimal_seperator[..], ".").parse::<f64>() {
+                Ok(number) => number,
+                _ => continue
+            };
+
+            if tokinizer.add_token_from_match(&capture.get(0), Some(TokenType::Percent(number))) {
                 tokinizer.add_uitoken_from_match(capture.name("NUMBER"), UiTokenType::Number);
                 tokinizer.add_uitoken_from_match(capture.name("PERCENT"), UiTokenType::Symbol2);
             }
